@@ -12,10 +12,10 @@
        <n int64> n × constant       constants (nested code included)
        <int16 UpvalueCount> <int16 RegCount> <int16 CellCount>
        <n int64> n × string         upvalue names
-  Reads are checked the way `binary.Read` / `bytes.Buffer.Read` check them;
-  what Go turns into a run-time panic (`make` with a negative or > 2^48-byte
-  size, recovered by the blanket `recover()` in `UnmarshalConst`) is the error
-  `recoveredPanic`.  Budgets are not modelled (unlimited runtime).
+  Reads are checked the way `binary.Read` / `io.ReadFull` check them; every
+  size field goes through `checkCount` (not negative, not more items than the
+  rest of the input can hold) before anything is allocated.  Budgets are not
+  modelled (unlimited runtime).
   Core Lean only.
 -/
 import GoluaVerif.Model.PackFmt
@@ -73,21 +73,13 @@ def marshal (c : Const) : Bytes := prefix3 ++ putConst c
 /-! ### reading -/
 
 inductive Err where
-  | eof              -- io.EOF / io.ErrUnexpectedEOF
+  | eof              -- io.EOF / io.ErrUnexpectedEOF (also: a count the rest of the input cannot hold)
   | badType          -- Invalid value type
   | badPrefix        -- not a dump (load treats the chunk as text)
-  | recoveredPanic   -- makeslice: len out of range, swallowed by recover(): value nil, err nil
+  | badSize          -- Invalid size: a negative size or count
   | notFunction      -- "Expected function to load"
-  | hugeAlloc        -- `make` of more than `allocLimit` bytes that the input cannot fill: the process is asked for
-                     --   the memory before the read fails (out of memory / thrashing, depending on the machine)
   | fuel             -- (never: the fuel supplied is sufficient)
   deriving DecidableEq, Repr, Inhabited
-
-/-- Go's `maxAlloc` on linux/amd64 -/
-def maxAlloc : Nat := 2 ^ 48
-
-/-- the address-space limit the correspondence runs the child process under (1.5 GiB); not a constant of golua -/
-def allocLimit : Nat := 3 * 2 ^ 29
 
 /-- exactly `n` bytes, `io.ReadFull` -/
 def takeN (n : Nat) (bs : Bytes) : Except Err (Bytes × Bytes) :=
@@ -99,26 +91,22 @@ def getU (k : Nat) (bs : Bytes) : Except Err (Nat × Bytes) :=
   | .error e => .error e
   | .ok (w, r) => .ok (ofLE w, r)
 
-/-- an `int64` size field, and the `make([]T, sz)` that follows it (`elem` = size of T in bytes) -/
-def getSize (elem : Nat) (bs : Bytes) : Except Err (Nat × Bytes) :=
+/-- an `int64` count of items that take at least `item` bytes each, accepted by `checkCount`:
+    not negative, and not more than the rest of the input can hold.  Only a count that passed this test is
+    ever handed to `make`. -/
+def getSize (item : Nat) (bs : Bytes) : Except Err (Nat × Bytes) :=
   match getU 8 bs with
   | .error e => .error e
   | .ok (u, r) =>
-    if u ≥ 2 ^ 63 then .error .recoveredPanic            -- negative int64
-    else if u * elem > maxAlloc then .error .recoveredPanic
-    else if u * elem > allocLimit ∧ u > r.length then .error .hugeAlloc
+    if u ≥ 2 ^ 63 then .error .badSize                    -- negative int64
+    else if u > r.length / item then .error .eof
     else .ok (u, r)
 
-/-- `readString`: `bytes.Buffer.Read` into a fresh `make([]byte, n)`: a short read is NOT an error
-    (the tail stays zero); only an empty buffer with n > 0 is `io.EOF` -/
+/-- `readString`: the length (checked against the rest of the input), then exactly that many bytes -/
 def getStr (bs : Bytes) : Except Err (Bytes × Bytes) :=
   match getSize 1 bs with
   | .error e => .error e
-  | .ok (n, r) =>
-    if n = 0 then .ok ([], r)
-    else if r.isEmpty then .error .eof
-    else if n - r.length > 2 ^ 20 then .error .hugeAlloc     -- (more than 1 MiB of padding: not materialised by the model)
-    else .ok (r.take n ++ List.replicate (n - r.length) 0, r.drop n)
+  | .ok (n, r) => takeN n r
 
 def getWords : Nat → Bytes → Except Err (List (BitVec 32) × Bytes)
   | 0, bs => .ok ([], bs)
@@ -177,7 +165,7 @@ def getConst : Nat → Bytes → Except Err (Const × Bytes)
       match getWords nlines r5 with
       | .error e => .error e
       | .ok (lines, r6) =>
-      match getSize 16 r6 with
+      match getSize 1 r6 with
       | .error e => .error e
       | .ok (nks, r7) =>
       match getConsts fuel nks r7 with
@@ -192,7 +180,9 @@ def getConst : Nat → Bytes → Except Err (Const × Bytes)
       match getU 2 r10 with
       | .error e => .error e
       | .ok (cc, r11) =>
-      match getSize 16 r11 with
+      if uv ≥ 2 ^ 15 ∨ rc ≥ 2 ^ 15 ∨ cc ≥ 2 ^ 15 then .error .badSize      -- a negative int16 count
+      else
+      match getSize 8 r11 with
       | .error e => .error e
       | .ok (nups, r12) =>
       match getStrs nups r12 with
@@ -224,21 +214,5 @@ def load (bs : Bytes) : Except Err Const :=
   | .error e => .error e
   | .ok (.code src name ops lines ks uv rc cc ups, _) => .ok (.code src name ops lines ks uv rc cc ups)
   | .ok (_, _) => .error .notFunction
-
-/-- the first allocation `readCode` makes for a top-level function: `make([]code.Opcode, sz)` with `sz` taken
-    from the input, requested BEFORE any of the `4*sz` bytes is read (and before the budget is consumed) -/
-def firstCodeAlloc (bs : Bytes) : Option Nat :=
-  match bs with
-  | 6 :: 0 :: 4 :: 5 :: body =>
-    match getStr body with
-    | .error _ => none
-    | .ok (_, r1) =>
-      match getStr r1 with
-      | .error _ => none
-      | .ok (_, r2) =>
-        match getU 8 r2 with
-        | .error _ => none
-        | .ok (u, _) => if u < 2 ^ 63 then some u else none
-  | _ => none
 
 end GoluaVerif.Model.Marshal
